@@ -47,6 +47,10 @@ use crate::wire::WireClientState;
 /// and decided not to implement `Send` and `Sync` for it.
 pub struct Session<'store> {
     id: CurrentSessionId,
+    /// `true` if the client attached a session cookie to the incoming request.
+    ///
+    /// Unlike `id`, it is not affected by [`Session::sync`].
+    has_client_cookie: bool,
     /// The server state is loaded lazily, hence the `OnceCell` wrapper.
     server_state: OnceCell<ServerState>,
     client_state: ClientState,
@@ -181,6 +185,7 @@ impl<'store> Session<'store> {
             ),
         };
         Self {
+            has_client_cookie: matches!(id, CurrentSessionId::Existing(_)),
             id,
             server_state: new_cell_with(server_state),
             client_state: ClientState::Unchanged {
@@ -472,8 +477,8 @@ impl Session<'_> {
         let state_config = &self.config.state;
         let fresh_ttl = state_config.ttl;
         let create_if_empty = {
-            let has_client_side = self.id.old_id().is_some()
-                || matches!(self.client_state, ClientState::Updated { .. });
+            let has_client_side =
+                self.has_client_cookie || matches!(self.client_state, ClientState::Updated { .. });
             has_client_side && state_config.server_state_creation == ServerStateCreation::NeverSkip
         };
         use ServerState::*;
@@ -486,8 +491,12 @@ impl Session<'_> {
                             .await?;
                     }
                 }
-                CurrentSessionId::ToBeRenamed { .. } => {
-                    // Nothing to do.
+                CurrentSessionId::ToBeRenamed { new, .. } => {
+                    if create_if_empty {
+                        self.store
+                            .create(&new, SessionRecordRef::empty(fresh_ttl))
+                            .await?;
+                    }
                 }
             },
             None => {
@@ -651,6 +660,17 @@ impl Session<'_> {
             });
             new_cell_with(new_state)
         };
+        // The store now knows this session, if at all, under its current id.
+        // All later operations (another `sync`, a lazy load, a deletion) must address
+        // that id rather than the one that was valid when the request came in.
+        let current_id = self.id.new_id();
+        match (&self.id, self.server_state.get()) {
+            (CurrentSessionId::ToBeRenamed { .. }, _)
+            | (CurrentSessionId::NewlyGenerated(_), Some(Unchanged { .. })) => {
+                self.id = CurrentSessionId::Existing(current_id);
+            }
+            _ => {}
+        }
         Ok(())
     }
 
@@ -677,7 +697,7 @@ impl Session<'_> {
         let cookie_name = &cookie_config.name;
 
         if self.invalidated.is_invalidated() {
-            if self.id.old_id().is_none() {
+            if !self.has_client_cookie {
                 // This is a new session, so there's nothing on the client-side
                 // to be removed.
                 return Ok(None);
@@ -710,7 +730,7 @@ impl Session<'_> {
                     // The session is new, we don't have a server-side record, and the client state is empty.
                     // We don't need to create a session cookie in this case.
                     if client_state.is_empty()
-                        && self.id.old_id().is_none()
+                        && !self.has_client_cookie
                         && !server_record_exists.unwrap_or(true)
                     {
                         return Ok(None);
